@@ -14,8 +14,10 @@ package webrtc
 //      connection (local or remote) sits at the index it had in the first description that contained it, and its
 //      section still has the same media kind.
 //   P2 append: mids that are new in a generated description come after all sections carried over from earlier
-//      descriptions (re-use of the slot of a section that was rejected in the previous description is tolerated and
-//      counted, JSEP allows it; pion never does it).
+//      descriptions, and not in a slot the description applied last already had, whether or not the section that held
+//      the slot is still there (re-use of the slot of a section that was rejected in the previous description is
+//      tolerated and counted, JSEP allows it; pion never does it). A section that is missing from a later description
+//      is only counted: the statement speaks of descriptions that include it.
 //   U1 one section per mid: the statement speaks of "its m-section" and of new sections never re-using a mid, so the mid
 //      a transceiver of the connection holds names exactly one m-section of every description the connection generates.
 //      A generated description that carries such a mid on two (or more) sections is a violation, unless the connection
@@ -31,6 +33,18 @@ package webrtc
 // CreateDataChannel then appears in its first offer, possibly a renegotiation offer). gen: the remote side is
 // a foreign peer model that offers sparse / non-numeric / mixed mids, answers pion's offers by mirroring them, and
 // adds (or rejects) sections of its own between rounds.
+//
+// Offer/answer options are a dimension of every history: each CreateOffer / CreateAnswer gets nil, an empty options
+// struct or a random combination of VoiceActivityDetection, ICETricklingSupported and (renegotiation offers only, the
+// ICE agent must exist) ICERestart; the foreign model restarts ICE itself (new credentials in its offer, which makes
+// pion restart as the answerer) and renews its credentials when pion's offer did. An ICE restart is a renegotiation
+// like any other: the statement's "every later offer or answer" has no exception for it. The option draws come from a
+// second per-case stream, so the operation sequence of a case does not depend on them.
+//
+// Cause attribution: when a description generated with non-default options violates an oracle, the same call is
+// repeated (CreateOffer/CreateAnswer may be called again in the same signalling state) with nil options and with each
+// of the options alone; the signature gets ":only-with-<options>" when the nil-options description is clean. The
+// history ends at the first violating description (the layout later rounds have to agree with is broken by then).
 
 import (
 	"fmt"
@@ -50,7 +64,71 @@ type c09Rec struct {
 	mids   []string
 	kinds  []string
 	ports  []string
+	opts   string // options the description was generated with ("" for applied foreign descriptions)
 }
+
+// c09Opts is one point of the OfferOptions / AnswerOptions space.
+type c09Opts struct{ set, vad, trickle, restart bool }
+
+func (o c09Opts) names() []string {
+	var out []string
+	if o.restart {
+		out = append(out, "ice-restart")
+	}
+	if o.trickle {
+		out = append(out, "trickle")
+	}
+	if o.vad {
+		out = append(out, "vad")
+	}
+	if o.set && len(out) == 0 {
+		out = append(out, "empty-options")
+	}
+
+	return out
+}
+
+func (o c09Opts) label() string {
+	if !o.set {
+		return "nil"
+	}
+
+	return strings.Join(o.names(), "+")
+}
+
+func c09OptsOf(names []string) c09Opts {
+	o := c09Opts{set: len(names) > 0}
+	for _, n := range names {
+		switch n {
+		case "ice-restart":
+			o.restart = true
+		case "trickle":
+			o.trickle = true
+		case "vad":
+			o.vad = true
+		}
+	}
+
+	return o
+}
+
+func (o c09Opts) create(pc *PeerConnection, typ string) (SessionDescription, error) {
+	base := OfferAnswerOptions{VoiceActivityDetection: o.vad, ICETricklingSupported: o.trickle}
+	if typ == "offer" {
+		if !o.set {
+			return pc.CreateOffer(nil)
+		}
+
+		return pc.CreateOffer(&OfferOptions{OfferAnswerOptions: base, ICERestart: o.restart})
+	}
+	if !o.set {
+		return pc.CreateAnswer(nil)
+	}
+
+	return pc.CreateAnswer(&AnswerOptions{OfferAnswerOptions: base})
+}
+
+type c09Finding struct{ sig, what string }
 
 type c09Conn struct {
 	name     string
@@ -67,17 +145,20 @@ type c09Conn struct {
 }
 
 type c09Hist struct {
-	run        *kit.Run
-	idx        int
-	r          *kit.Rand
-	mode       string
-	ops        []string
-	texts      []string
-	nextID     int
-	rounds     int
-	addLate    int // additions made after the first completed round
-	stop       bool
-	stopReason string
+	run             *kit.Run
+	idx             int
+	r               *kit.Rand
+	ro              *kit.Rand // option stream (second per-case stream)
+	mode            string
+	ops             []string
+	texts           []string
+	nextID          int
+	rounds          int
+	addLate         int // additions made after the first completed round
+	restarts        int // offers generated with ICERestart
+	foreignRestarts int
+	stop            bool
+	stopReason      string
 }
 
 func (h *c09Hist) logf(f string, a ...any) { h.ops = append(h.ops, fmt.Sprintf(f, a...)) }
@@ -184,18 +265,13 @@ func (c *c09Conn) indexOf(t *RTPTransceiver) int {
 	return -1
 }
 
-// generated is P1/P2 for a description the connection has just produced.
-func (c *c09Conn) generated(h *c09Hist, rec c09Rec) { //nolint:cyclop
+// generated counts what a description the connection has just produced exercises and judges it.
+func (c *c09Conn) generated(h *c09Hist, rec c09Rec) []c09Finding {
 	h.run.Count("descriptions_generated_"+rec.typ, 1)
-	dups := map[string]bool{}
-	for _, m := range rec.dupMids() {
-		dups[m] = true
-	}
-	if len(dups) > 0 {
+	if len(rec.dupMids()) > 0 {
 		h.run.Count("descriptions_with_duplicate_mid", 1)
 		h.stop = true
 		h.stopReason = "duplicate mid"
-		c.duplicates(h, rec)
 	}
 	if rec.typ == "offer" && len(c.applied) > 0 {
 		newMedia, newApp := false, false
@@ -218,6 +294,25 @@ func (c *c09Conn) generated(h *c09Hist, rec c09Rec) { //nolint:cyclop
 			h.run.Count("reneg_offers_new_media_only", 1)
 		}
 	}
+
+	return c.judge(h, rec, false)
+}
+
+// judge is P1/P2/U1 for a generated description. quiet: no counters, no log lines (attribution probes).
+func (c *c09Conn) judge(h *c09Hist, rec c09Rec, quiet bool) []c09Finding { //nolint:cyclop
+	var out []c09Finding
+	count := func(k string) {
+		if !quiet {
+			h.run.Count(k, 1)
+		}
+	}
+	dups := map[string]bool{}
+	for _, m := range rec.dupMids() {
+		dups[m] = true
+	}
+	if len(dups) > 0 {
+		out = append(out, c.duplicates(h, rec, quiet)...)
+	}
 	var prev *c09Rec
 	if len(c.applied) > 0 {
 		prev = &c.applied[len(c.applied)-1]
@@ -233,7 +328,7 @@ func (c *c09Conn) generated(h *c09Hist, rec c09Rec) { //nolint:cyclop
 	}
 	for i, mid := range rec.mids {
 		if mid == "" {
-			h.run.Count("sections_without_mid", 1)
+			count("sections_without_mid")
 
 			continue
 		}
@@ -242,39 +337,72 @@ func (c *c09Conn) generated(h *c09Hist, rec c09Rec) { //nolint:cyclop
 		}
 		first, old := c.firstIdx[mid]
 		if old {
-			h.run.Count("carried_sections_checked", 1)
+			count("carried_sections_checked")
 			if first != i {
-				h.violation("position-changed:"+rec.typ, fmt.Sprintf(
+				out = append(out, c09Finding{"position-changed:" + rec.typ, fmt.Sprintf(
 					"%s: %s %d has mid %q at index %d, but description %d (first with that mid) had it at index %d; now: %s",
-					c.name, rec.typ, rec.id, mid, i, c.firstID[mid], first, rec))
+					c.name, rec.typ, rec.id, mid, i, c.firstID[mid], first, rec)})
 			}
 			if k := c.firstKnd[mid]; k != rec.kinds[i] {
-				h.violation("mid-kind-changed", fmt.Sprintf("%s: %s %d mid %q is m=%s, it was m=%s in description %d; now: %s",
-					c.name, rec.typ, rec.id, mid, rec.kinds[i], k, c.firstID[mid], rec))
+				out = append(out, c09Finding{"mid-kind-changed", fmt.Sprintf(
+					"%s: %s %d mid %q is m=%s, it was m=%s in description %d; now: %s",
+					c.name, rec.typ, rec.id, mid, rec.kinds[i], k, c.firstID[mid], rec)})
 			}
 
 			continue
 		}
-		h.run.Count("new_sections_checked", 1)
+		count("new_sections_checked")
 		if i < lastOld {
 			if prev != nil && i < len(prev.ports) && prev.ports[i] == "0" {
-				h.run.Count("recycled_rejected_slot", 1)
+				count("recycled_rejected_slot")
 
 				continue
 			}
-			h.violation("new-section-not-appended:"+rec.typ, fmt.Sprintf(
+			out = append(out, c09Finding{"new-section-not-appended:" + rec.typ, fmt.Sprintf(
 				"%s: %s %d introduces mid %q at index %d, before carried-over section at index %d; now: %s",
-				c.name, rec.typ, rec.id, mid, i, lastOld, rec))
+				c.name, rec.typ, rec.id, mid, i, lastOld, rec)})
+
+			continue
+		}
+		// "appended after existing sections": the slots of the description applied last are the existing sections,
+		// also when the section that held the slot is missing from this description.
+		if prev != nil && i < len(prev.mids) && prev.mids[i] != "" {
+			if prev.ports[i] == "0" {
+				count("recycled_rejected_slot")
+
+				continue
+			}
+			out = append(out, c09Finding{"new-section-in-existing-slot:" + rec.typ, fmt.Sprintf(
+				"%s: %s %d introduces mid %q at index %d, the slot of section %s:%s of description %d (applied last, not rejected); now: %s",
+				c.name, rec.typ, rec.id, mid, i, prev.kinds[i], prev.mids[i], prev.id, rec)})
 		}
 	}
+	if prev != nil && !quiet {
+		// not forbidden by the statement (it speaks of descriptions that include the section), only counted
+		present := map[string]bool{}
+		for _, mid := range rec.mids {
+			present[mid] = true
+		}
+		for _, mid := range prev.mids {
+			if mid != "" && !present[mid] {
+				h.run.Count("model_divergence_section_dropped", 1)
+				h.logf("  %s %d does not contain mid %q of description %d", rec.typ, rec.id, mid, prev.id)
+			}
+		}
+	}
+
+	return out
 }
 
 // duplicates is U1 for a generated description in which some mid occurs on several sections.
-func (c *c09Conn) duplicates(h *c09Hist, rec c09Rec) {
+func (c *c09Conn) duplicates(h *c09Hist, rec c09Rec, quiet bool) []c09Finding {
+	var out []c09Finding
 	for _, mid := range rec.dupMids() {
 		if id, inherited := c.dupSeen[mid]; inherited {
-			h.run.Count("duplicate_mid_mirrored", 1)
-			h.logf("  %s %d mirrors duplicate mid %q of description %d", rec.typ, rec.id, mid, id)
+			if !quiet {
+				h.run.Count("duplicate_mid_mirrored", 1)
+				h.logf("  %s %d mirrors duplicate mid %q of description %d", rec.typ, rec.id, mid, id)
+			}
 
 			continue
 		}
@@ -285,7 +413,9 @@ func (c *c09Conn) duplicates(h *c09Hist, rec c09Rec) {
 			}
 		}
 		if holder < 0 {
-			h.run.Count("duplicate_mid_without_transceiver", 1)
+			if !quiet {
+				h.run.Count("duplicate_mid_without_transceiver", 1)
+			}
 
 			continue
 		}
@@ -306,10 +436,52 @@ func (c *c09Conn) duplicates(h *c09Hist, rec c09Rec) {
 			classes = append(classes, class)
 			where = append(where, fmt.Sprintf("%d (m=%s)", i, rec.kinds[i]))
 		}
-		h.violation("mid-shared-by-sections:"+rec.typ+":"+strings.Join(classes, "+"), fmt.Sprintf(
+		out = append(out, c09Finding{"mid-shared-by-sections:" + rec.typ + ":" + strings.Join(classes, "+"), fmt.Sprintf(
 			"%s: %s %d carries mid %q, held by transceiver #%d, on the sections at index %s; no description applied before had that duplicate; now: %s",
-			c.name, rec.typ, rec.id, mid, holder, strings.Join(where, " and "), rec))
+			c.name, rec.typ, rec.id, mid, holder, strings.Join(where, " and "), rec)})
 	}
+
+	return out
+}
+
+// layoutClass says whether the layout of the last applied description is the one a description built from the local
+// state alone would have: transceivers in list order, application section last ("list-order"), or not ("other").
+func (c *c09Conn) layoutClass() string {
+	if len(c.applied) == 0 {
+		return "none"
+	}
+	last := c.applied[len(c.applied)-1]
+	held := map[string]bool{}
+	var byList, bySDP []string
+	for _, t := range c.pc.GetTransceivers() {
+		if m := t.Mid(); m != "" {
+			held[m] = true
+		}
+	}
+	inSDP := map[string]bool{}
+	for i, m := range last.mids {
+		if last.kinds[i] == "application" {
+			if i != len(last.mids)-1 {
+				return "other"
+			}
+
+			continue
+		}
+		if held[m] {
+			bySDP = append(bySDP, m)
+			inSDP[m] = true
+		}
+	}
+	for _, t := range c.pc.GetTransceivers() {
+		if m := t.Mid(); inSDP[m] {
+			byList = append(byList, m)
+		}
+	}
+	if strings.Join(byList, "\x00") != strings.Join(bySDP, "\x00") {
+		return "other"
+	}
+
+	return "list-order"
 }
 
 // apply records a description the connection applied (local or remote).
@@ -452,29 +624,123 @@ func (h *c09Hist) gather(c *c09Conn) bool {
 	if rigGatherDone(c.pc, 15*time.Second) {
 		return true
 	}
-	h.run.Inconclusive("gathering watchdog")
+	reason := "gathering watchdog"
+	if h.restarts > 0 || h.foreignRestarts > 0 {
+		reason += " in a history with ICE restarts"
+	}
+	h.run.Inconclusive(reason)
+	h.run.Seen("watchdog_case", fmt.Sprintf("%s case %d after %d rounds, last op: %s", c.name, h.idx, h.rounds, h.ops[len(h.ops)-1]))
 	h.stop = true
 	h.stopReason = "watchdog"
 
 	return false
 }
 
+// pickOpts draws the options of the next CreateOffer / CreateAnswer of c. ICERestart needs an ICE agent (it exists
+// once the connection has generated or answered a description) and is a renegotiation feature: it is only drawn for
+// offers after the first completed round.
+func (h *c09Hist) pickOpts(c *c09Conn, typ string) c09Opts {
+	ro := h.ro
+	nilOpts, vad, trickle, restart := ro.Chance(0.4), ro.Chance(0.35), ro.Chance(0.35), ro.Chance(0.5)
+	if nilOpts {
+		return c09Opts{}
+	}
+	o := c09Opts{set: true, vad: vad, trickle: trickle}
+	if typ == "offer" && h.rounds >= 1 && len(c.applied) > 0 {
+		o.restart = restart
+	}
+
+	return o
+}
+
+// attribute decides whether the findings of a description generated with options o depend on the options: the call is
+// repeated with nil options and with every option of o alone, each result is judged like the original. Returned is the
+// signature suffix per finding signature ("" when the nil-options description violates in the same way).
+func (h *c09Hist) attribute(c *c09Conn, typ string, id int, o c09Opts, findings []c09Finding) map[string]string {
+	probe := func(po c09Opts) (map[string]bool, bool) {
+		sd, err := po.create(c.pc, typ)
+		if err != nil {
+			h.logf("  probe %s.Create%s(%s) -> error %v", c.name, typ, po.label(), err)
+
+			return nil, false
+		}
+		rec, perr := c09Parse(sd.SDP)
+		if perr != nil {
+			return nil, false
+		}
+		rec.id, rec.typ, rec.opts = id, typ, po.label()
+		sigs := map[string]bool{}
+		for _, f := range c.judge(h, rec, true) {
+			sigs[f.sig] = true
+		}
+		h.logf("  probe %s.Create%s(%s) => %s (%d findings)", c.name, typ, po.label(), rec, len(sigs))
+		h.run.Count("attribution_probes", 1)
+
+		return sigs, true
+	}
+	out := map[string]string{}
+	fallback := ":with-" + strings.Join(o.names(), "+")
+	base, ok := probe(c09Opts{})
+	single := map[string]map[string]bool{}
+	for _, f := range findings {
+		if _, done := out[f.sig]; done {
+			continue
+		}
+		switch {
+		case !ok:
+			out[f.sig] = fallback
+		case base[f.sig]:
+			out[f.sig] = ""
+		default:
+			var causes []string
+			failed := false
+			for _, n := range o.names() {
+				if _, probed := single[n]; !probed {
+					sigs, pok := probe(c09OptsOf([]string{n}))
+					if !pok {
+						failed = true
+						sigs = map[string]bool{}
+					}
+					single[n] = sigs
+				}
+				if single[n][f.sig] {
+					causes = append(causes, n)
+				}
+			}
+			switch {
+			case len(causes) > 0:
+				out[f.sig] = ":only-with-" + strings.Join(causes, "+")
+			case failed:
+				out[f.sig] = fallback
+			default:
+				out[f.sig] = ":only-with-" + strings.Join(o.names(), "+") // the combination, no single option
+			}
+		}
+	}
+
+	return out
+}
+
 // createAndSet generates a description on c (offer or answer), runs the oracles and applies it locally.
 func (h *c09Hist) createAndSet(c *c09Conn, typ string) (c09Rec, string, bool) {
-	var sd SessionDescription
-	var err error
 	id := h.nextID
-	if typ == "offer" {
-		sd, err = c.pc.CreateOffer(nil)
-	} else {
-		sd, err = c.pc.CreateAnswer(nil)
-	}
+	o := h.pickOpts(c, typ)
+	layout := c.layoutClass()
+	sd, err := o.create(c.pc, typ)
 	if err != nil {
-		h.apiErr(c.name+".Create"+typ, err)
+		h.apiErr(c.name+".Create"+typ+"("+o.label()+")", err)
 
 		return c09Rec{}, "", false
 	}
 	h.nextID++
+	h.run.Seen(typ+"_options", o.label())
+	if typ == "offer" && layout != "none" {
+		h.run.Count("reneg_offers_on_layout_"+layout, 1)
+		if o.restart {
+			h.run.Count("ice_restart_offers_on_layout_"+layout, 1)
+			h.restarts++
+		}
+	}
 	rec, perr := c09Parse(sd.SDP)
 	if perr != nil {
 		h.violation("unparsable", perr.Error())
@@ -482,11 +748,30 @@ func (h *c09Hist) createAndSet(c *c09Conn, typ string) (c09Rec, string, bool) {
 
 		return rec, "", false
 	}
-	rec.id, rec.typ = id, typ
-	h.texts = append(h.texts, fmt.Sprintf("#%d %s by %s\n%s", id, typ, c.name, sd.SDP))
-	h.logf("  #%d %s.%s => %s", id, c.name, typ, rec)
+	rec.id, rec.typ, rec.opts = id, typ, o.label()
+	h.texts = append(h.texts, fmt.Sprintf("#%d %s by %s, options %s\n%s", id, typ, c.name, o.label(), sd.SDP))
+	h.logf("  #%d %s.%s(%s) => %s", id, c.name, typ, o.label(), rec)
 	c.observe(h, "Create"+typ, id)
-	c.generated(h, rec)
+	if findings := c.generated(h, rec); len(findings) > 0 {
+		suffix := map[string]string{}
+		if o.set {
+			suffix = h.attribute(c, typ, id, o, findings)
+		}
+		for _, f := range findings {
+			what := f.what
+			switch sfx := suffix[f.sig]; {
+			case sfx != "":
+				what += "; generated with options " + o.label() + ", the same call with nil options gives a description without this fault"
+			case o.set:
+				what += "; generated with options " + o.label() + ", nil options give the same fault"
+			}
+			h.violation(f.sig+suffix[f.sig], what)
+		}
+		h.stop = true
+		h.stopReason = "violation"
+
+		return rec, "", false
+	}
 	if err = c.pc.SetLocalDescription(sd); err != nil {
 		h.apiErr(c.name+".SetLocalDescription("+typ+")", err)
 
@@ -546,6 +831,15 @@ type c09Foreign struct {
 	nonNum   int
 	ssrc     uint32
 	rejectOK bool
+	creds    int    // ICE credential generations of the model
+	pionICE  string // ice-ufrag of pion's last offer
+}
+
+// renewICE gives the model new ICE credentials (an ICE restart on its side).
+func (f *c09Foreign) renewICE() {
+	f.creds++
+	f.g.Ufrag = fmt.Sprintf("vfUfrag%04d", f.creds)
+	f.g.Pwd = fmt.Sprintf("vfPasswordvfPasswordvfPwd%04d", f.creds)
 }
 
 func (f *c09Foreign) freshMid(r *kit.Rand) string {
@@ -636,6 +930,12 @@ func (f *c09Foreign) offer(h *c09Hist, first bool) string {
 			h.run.Count("foreign_sections_rejected", 1)
 		}
 	}
+	if !first && h.ro.Chance(0.25) {
+		f.renewICE() // remote ICE restart: pion restarts as the answerer
+		h.logf("foreign restarts ICE")
+		h.run.Count("foreign_ice_restart_offers", 1)
+		h.foreignRestarts++
+	}
 	for _, m := range f.g.Media {
 		m.Setup = "actpass"
 	}
@@ -661,6 +961,17 @@ func (f *c09Foreign) answer(h *c09Hist, offerText string) (string, bool) {
 
 		return "", false
 	}
+	ufrag, _ := d.Attr("ice-ufrag")
+	if len(d.Media) > 0 {
+		if u, ok := d.Media[0].Attr("ice-ufrag"); ok {
+			ufrag = u
+		}
+	}
+	if f.pionICE != "" && ufrag != f.pionICE {
+		f.renewICE() // pion restarted ICE: the answerer renews its credentials as well
+		h.run.Count("foreign_answers_to_ice_restart", 1)
+	}
+	f.pionICE = ufrag
 	saved := map[*genMedia]string{}
 	for i, pm := range d.Media {
 		mid, _ := pm.Mid()
@@ -775,12 +1086,17 @@ func (h *c09Hist) runGen(c *c09Conn, style int) { //nolint:cyclop
 
 // ---------------------------------------------------------------- driver
 
+// c09OptStream separates the option stream of a case from its operation stream (case indices stay far below it).
+const c09OptStream = 1 << 24
+
 func TestVerifC09(t *testing.T) {
 	run := kit.Start(t, "C09", "seeded Unified-Plan renegotiation histories without rollback (pure function of seed,index): "+
 		"pair = two pion PeerConnections, 2..10 complete rounds, offerer alternating with probability 0.8, random AddTransceiverFromKind/FromTrack, "+
 		"AddTrack, CreateDataChannel, RemoveTrack, Stop and SetMid-overwrite probes on both peers between rounds, each PeerConnection with "+
 		"AlwaysNegotiateDataChannels with probability 0.2; gen = one pion PeerConnection against a "+
 		"foreign peer model (dense / sparse / non-numeric / mixed mids by index) that offers, mirrors pion's offers and adds or rejects sections itself. "+
+		"Every CreateOffer/CreateAnswer gets random options (nil, empty, VoiceActivityDetection, ICETricklingSupported, and ICERestart on renegotiation offers); "+
+		"the foreign model restarts ICE too. "+
 		"Every generated description (positions, appending, one section per transceiver mid) and Mid() of every transceiver after every step are checked. Non-trivial: >= 3 completed rounds and >= 1 addition "+
 		"after the first round; distinct by the operation/outcome log")
 	defer run.Finish()
@@ -788,12 +1104,13 @@ func TestVerifC09(t *testing.T) {
 	run.Assume("'earlier local or remote description' = descriptions the connection applied (SetLocalDescription / SetRemoteDescription succeeded)")
 	run.Assume("re-use of the slot of a section that was rejected in the previous description (JSEP recycling) would be tolerated and counted; other placements of new sections before carried-over ones are violations")
 	run.Assume("a mid names one m-section: a generated description carrying the mid of one of the connection's transceivers on several sections violates 'its m-section keeps the same mid and position' / 'new sections never reuse a mid', unless the duplicate is mirrored from a description applied earlier (remote offer); the history stops at the first duplicate")
+	run.Assume("an ICE restart offer is a renegotiation offer like any other ('every later offer or answer'); offer/answer options do not suspend the property")
 	run.Assume("foreign offers contain only audio/video/application sections with a direction attribute (other sections are dropped by pion's answer, C07's finding)")
 
 	n := kit.N(480, 8000)
 	run.Parallel(n, 16, func(i int) {
 		r := run.CaseRand(i)
-		h := &c09Hist{run: run, idx: i, r: r}
+		h := &c09Hist{run: run, idx: i, r: r, ro: run.CaseRand(i + c09OptStream)}
 		defer func() {
 			if rec := recover(); rec != nil {
 				run.Inconclusive(fmt.Sprintf("panic in history: %v", rec))
@@ -854,6 +1171,9 @@ func TestVerifC09(t *testing.T) {
 		run.Seen("rounds_completed_per_history", fmt.Sprintf("%02d", h.rounds))
 		if h.stop {
 			run.Seen("history_stopped", h.stopReason)
+		}
+		if h.restarts > 0 {
+			run.Count("histories_with_ice_restart_offer", 1)
 		}
 		if h.nextID == 0 {
 			return
